@@ -111,7 +111,10 @@ def make_calls(ck, gen, T, mir, sv, parent, children, variants):
                 calls.append({"child": {"kind": "cls", "cls": c, "kw": [], "form": rng.choice(["str", "class"])},
                               "hint": None, "force": False, "validate": False})
             continue
-        hints = list(cands) + [None, WRONG, ""]
+        near = rng.choice(cands)
+        # near misses: a proper prefix / suffix / different case / extension of a candidate name
+        hints = list(cands) + [None, WRONG, "", rng.choice([near[:-1], near[1:], near.upper(), near + "_", near.split("_")[-1]])]
+        hints = [h for h in hints if h is None or h == "" or h in cands or all(h != c_ for c_ in cands)]
         combos = [(h, f) for h in hints for f in (False, True)]
         if variants is not None and len(combos) > variants:
             combos = rng.sample(combos, variants)
